@@ -538,6 +538,8 @@ def run(chk):
     poloidal(chk)
     density(chk)
     solver(chk)
+    from .C14 import per_mode
+    per_mode(chk)
     initialisers(chk)
     driver_typestate(chk)
     chk.floor("C-window", 30)
